@@ -1,6 +1,12 @@
 """C03 — the NUPACK .des output is constraint-equivalent to the source program.
 
-Correspondence: real `compiler(..., synth=False)` vs model op `compile` (format des), token lines.
+Correspondence: (1) real `compiler(..., synth=False)` vs model op `compile` (format des), token lines;
+(2) an independent reader of the implementation's .des text (`semantics.des_doc`) vs the model's document
+`Des.desDoc` (op `des-doc`: structure / sequence / assignment / bound lines, in order), which is what the
+theorems of PepperProps/C03.lean talk about; (3) the hypotheses of `des_equiv_partial` that are not yet
+proved from acceptance are evaluated by the model on every accepted program: `Des.BlocksOk` (names unique,
+references resolve, port lengths) must hold and `Des.designOf` (the design of the object tables) must be
+the design `Denote.denoteTop` gives the source.
 Oracle: the link closure (union-find with parity + allowed-base sets, harness/semantics.py) of what the
 implementation's .des says, restricted to the program's structures, must equal that of what the source denotes
 (`src-denote`); every program structure is listed once with its target, one sequence assignment and its `<`
@@ -51,12 +57,41 @@ def run(st, tier, seed):
         if not r["ok"]:
             continue
         rq = progen.compile_request(b, "pil", anon=0); rq["op"] = "src-denote"
-        reqs.append(rq); keep.append((tag, b, r))
+        rq2 = progen.compile_request(b, "des", anon=r["anon_before"]); rq2["op"] = "des-doc"
+        reqs.append(rq); reqs.append(rq2); keep.append((tag, b, r))
     got = drv.call_many(reqs)
-    for (tag, b, r), g in zip(keep, got):
+    for k, (tag, b, r) in enumerate(keep):
+        g, gd = got[2 * k], got[2 * k + 1]
         res.evaluations += 1
         inp = {"files": b.texts, "entry": b.entry, "includes": b.includes}
         cmd = "pepper-compiler --des " + b.entry
+        # correspondence (2): the document the theorems are about is the document the implementation wrote
+        res.disagreements_checked += 1
+        try:
+            have_doc = semantics.des_doc(r["text"])
+        except ValueError:
+            have_doc = None     # reported below as C03:invalid-des
+        if "ok" not in gd:
+            res.corr_breaks.append({"name": "Des.desDoc", "input": inp, "model": gd, "impl": "accepted"})
+        elif have_doc is not None:
+            md = gd["ok"]
+            if {x: md[x] for x in have_doc} != have_doc:
+                diff = [x for x in have_doc if md[x] != have_doc[x]]
+                res.corr_breaks.append({"name": "Des.desDoc", "input": inp, "differs_in": diff,
+                                        "model": {x: md[x] for x in diff}, "impl": {x: have_doc[x] for x in diff}})
+            else:
+                res.count("des-doc:agree")
+                if not md["tables_ok"] or not md["wf"]:
+                    res.corr_breaks.append({"name": "Des.BlocksOk", "input": inp,
+                                            "model": {"tables_ok": md["tables_ok"], "wf": md["wf"]},
+                                            "impl": "hypothesis of des_equiv_partial fails on an accepted program"})
+                elif "ok" in g:
+                    dd = pilio.design_diff(pilio.canon_design(g["ok"]), pilio.canon_design(md["design"]))
+                    if dd is not None:
+                        res.corr_breaks.append({"name": "Des.designOf", "input": inp, "model": dd["output_denotes"],
+                                                "impl": dd["source_denotes"], "field": dd["field"]})
+                    else:
+                        res.count("designOf=denote")
         if "ok" not in g:
             res.corr_breaks.append({"name": "Denote.accept", "input": inp, "model": g, "impl": "accepted"}); continue
         d = pilio.canon_design(g["ok"])
